@@ -206,7 +206,7 @@ def main(tier, n=None):
     rep = common.Report(PROP, tier, "exploration", RULE)
     rep.assumptions = ["don't-care: look-alike directories below paths that cannot be identifiers (e.g. my.dir/), leading-zero timestamps", "gc is invoked from the project root here (other working directories: C17)"]
     rng = common.rng_for("c13", common.base_seed())
-    total = n or (60 if tier == "quick" else 1200)
+    total = n or (200 if tier == "quick" else 3000)
     cases = []
     for i in range(total):
         modes = rng.choice([["dry", "gc"], ["dry-long", "verbose"], ["gc"], ["verbose", "dry"], ["dry", "gc", "gc"]])
